@@ -116,6 +116,41 @@ fn run_agg(job: &Value) {
     write_stats(job, &mut out, true);
 }
 
+/// corpus for the feature-subset builds of C17: lines `evaluator<TAB>expression`
+fn run_corpus(job: &Value) {
+    use std::io::Write;
+    let v = vocab::Vocab::load(job["vocab"].as_str().unwrap());
+    let mut w = std::io::BufWriter::new(std::fs::File::create(job["corpus"].as_str().unwrap()).unwrap());
+    let every = job["every"].as_u64().unwrap_or(3);
+    let mut n = 0u64;
+    for (e, path) in job["behs"].as_object().unwrap() {
+        let file = std::io::BufReader::new(std::fs::File::open(path.as_str().unwrap()).unwrap());
+        for (i, line) in file.lines().enumerate() {
+            let bv: Value = match serde_json::from_str(&line.unwrap()) { Ok(x) => x, Err(_) => continue };
+            let b = parse_beh(&bv);
+            if !b.renderable || b.numnum { continue; }
+            if b.verdict != "accept" && (i as u64) % every != 0 { continue; }
+            for off in [0usize, 4] {
+                let pol = if off == 0 { render::Policy::reveal(e, off) } else { render::Policy::all_fns(e, off) };
+                if let Some(r) = render::render(&v, e, &b.kinds, &pol) { let _ = writeln!(w, "{}\t{}", e, r.text); n += 1; }
+            }
+        }
+    }
+    // extreme literals and superscript runs, per evaluator
+    let sup = |k: usize| vocab::sup_digits(&"1234567890".repeat(4)[..k]);
+    let zsup = |k: usize| format!("{}{}", vocab::sup_digits(&"0".repeat(k)), "³");
+    for e in ["f64", "i64", "dec", "cpx", "num"] {
+        let mut xs: Vec<String> = vec![];
+        for k in [1usize, 2, 10, 18, 19, 20, 21, 30, 40] { xs.push(format!("2{}", sup(k))); xs.push(format!("1{}", sup(k))); xs.push(format!("2{}", zsup(k))); xs.push(format!("(1+1){}!", zsup(k))); }
+        for d in [1usize, 18, 19, 20, 28, 29, 30, 100, 400] { xs.push("9".repeat(d)); xs.push(format!("0.{}1", "0".repeat(d))); xs.push(format!("{}.5", "1".repeat(d))); xs.push(format!("0{}", "7".repeat(d))); }
+        xs.extend(["1.2.3", "1..2", ".5.5", "1.", ".", "2pi", "1e5", "2i3", "i2", "π²", "3!!", "-2^2", "2^3!", "6/2(3)", "1 + 2\u{2003}* 3", "⌊2.5⌋⌈2.5⌉", "1<<63", "1<<64", "5%0", "1/0", "avg()", "min()", "max(1,2,)", "sgn(0)", "w(1)", "ilog(100,2)", "gcd(12,18)", "@@", "(@)", "@(2)"].iter().map(|s| s.to_string()));
+        for x in xs { let _ = writeln!(w, "{}\t{}", e, x); n += 1; }
+    }
+    for k in history::key_pool() { let _ = writeln!(w, "{}\t{}", k.e, k.expr); n += 1; }
+    let _ = w.flush();
+    std::fs::write(job["stats"].as_str().unwrap(), json!({"lines": n}).to_string()).unwrap();
+}
+
 /// ref-selftest: the reference interpreter instantiated at the specification's small word size must
 /// reproduce every vector TLC computed from IntSem / NumSem (spec/MCSem.tla).
 fn run_selftest(job: &Value) {
@@ -191,6 +226,7 @@ fn main() {
             "replay" => run_replay(&job),
             "selftest" => run_selftest(&job),
             "agg" => run_agg(&job),
+            "corpus" => run_corpus(&job),
             "history" => {
                 let mut out = open_out(&job, profile_name());
                 history::run(&mut out, job["seed"].as_u64().unwrap_or(1), job["n_seq"].as_u64().unwrap_or(1000) as usize, job["n_par"].as_u64().unwrap_or(1600) as usize, job["threads"].as_u64().unwrap_or(16) as usize);
